@@ -154,7 +154,7 @@ func (w *world) detectPrimitives() {
 		if s := w.info.Selections[fsel]; s == nil || s.Kind() != types.FieldVal {
 			continue
 		}
-		w.prims[fn] = &primitive{method: m.Name()}
+		w.prims[fn] = &primitive{method: m.Name(), field: fsel.Sel.Name}
 	}
 }
 
